@@ -13,7 +13,7 @@ from . import eng, enggen
 PROP = "C18"
 RUN_MODULE = "Run.C18Run"
 CHUNK = 300
-K = dict(callable_refs=0.25, decor=0.5, state_decor=0.2, cbs=0.3, conv=0.1, guards=0.5, internal=0.7, self_loop=0.35, multi_event=0.5, final=0.3, sends=0.0,
+K = dict(extend_inherit=0.3, callable_refs=0.25, decor=0.5, state_decor=0.2, cbs=0.3, conv=0.1, guards=0.5, internal=0.7, self_loop=0.35, multi_event=0.5, final=0.3, sends=0.0,
          raises=0.0, p_async=0.0, rtc_false=0.0, allow=1.0, ops=(0, 4), falsy_machine=0.0, p_values=0.35,
          start=0.35, resume=0.0, p_write=0.0, p_construct=0.0, p_activate=0.0, styles=("str", "list", "obj", "assign"))
 
@@ -64,7 +64,16 @@ def run_impl(sc):
     with warnings.catch_warnings():
         warnings.simplefilter("ignore")
         eng._clear_signature_cache()
-        exec(compile(eng.render_source(sc), "<c18>", "exec"), ns)  # noqa: S102
+        src = eng.render_source(sc)
+        if sc.get("extend_event") is not None and "class M(Base):" in src:
+            # the base class is drawn (e.g. for the documentation) BEFORE the subclass that gives every inherited
+            # transition one more event is defined
+            head, tail = src.split("class M(Base):", 1)
+            exec(compile(head, "<c18>", "exec"), ns)  # noqa: S102
+            DotGraphMachine(ns["Base"])()
+            exec(compile("class M(Base):" + tail, "<c18>", "exec"), ns)  # noqa: S102
+        else:
+            exec(compile(src, "<c18>", "exec"), ns)  # noqa: S102
         R.cls = ns["M"]
         nodes, edges = parse_graph(DotGraphMachine(ns["M"])(), sc)
         out.append({"cur": None, "nodes": nodes, "edges": edges})
